@@ -20,4 +20,6 @@ for root, _d, files in os.walk('.'):
 sys.exit(0 if ok else 1)
 PY
 mkdir -p evidence replays
+# the SQL interpreter agrees with documented MySQL semantics on its micro-test suite (known divergences listed there)
+PYTHONHASHSEED=0 /venv/bin/python -m minimysql.tests.test_semantics >/tmp/verif-sqltests.log 2>&1 || { tail -20 /tmp/verif-sqltests.log; echo "minimysql semantics tests failed"; exit 1; }
 echo "setup ok"
